@@ -135,9 +135,11 @@ def correspondence(ctx):
                     if gr[0]["columns"] != declared:
                         ctx.violations.append({"what": "row-level fetch contains other columns than declared + variant",
                                                "detail": f"{gr[0]['columns']} vs {declared}", "input": case})
+    expx.power_correspondence(ctx, "c03p", ctx.n(30, 600))
 
 
 def oracle(ctx, deep=False):
+    wide_oracle(ctx)
     # power analysis: one ungrouped aggregate query with one row
     import random
     import tea_tasting as tt
@@ -163,8 +165,48 @@ def oracle(ctx, deep=False):
                                    "input": {"metrics": metrics, "backend": backend, "power": True}})
 
 
+def _wide(backend, k, seed, power):
+    """experiment whose merged request has many (> 128) aggregate expressions: still one fetch"""
+    import random
+    import tea_tasting as tt
+    rng = random.Random(seed)
+    cols = [f"c{i}" for i in range(k)]
+    n = 12
+    data = {"variant": [i % 2 for i in range(n)], **{c: [float(rng.randint(0, 9)) for _ in range(n)] for c in cols}}
+    metrics = {f"m{i}": tt.Mean(cols[i], covariate=cols[(i + 1) % k], rel_effect_size=0.1) for i in range(k)}
+    try:
+        tab = B.make_table(backend, data)
+        with B.fetch_counters() as log:
+            if power:
+                tt.Experiment(metrics).solve_power(tab, "power")
+            else:
+                tt.Experiment(metrics).analyze(tab)
+    finally:
+        B.cleanup()
+    obs = [{"backend": f["backend"], "rows": f["rows"], "n_columns": len(f["columns"])} for f in log]
+    want_rows = 1 if power else 2
+    return obs, (len(obs) == 1 and obs[0]["rows"] == want_rows)
+
+
+def wide_oracle(ctx):
+    for backend in B.LAZY_KINDS:
+        for power in (False, True):
+            k = ctx.rng.choice([45, 60, 90])
+            seed = ctx.rng.randint(0, 10**6)
+            obs, ok = _wide(backend, k, seed, power)
+            ctx.evaluations += 1
+            ctx.count("oracle:wide-experiment")
+            if not ok:
+                ctx.violations.append({"what": "experiment with many aggregate expressions did not materialise exactly one result set",
+                                       "detail": f"{3 * k} expressions: fetches {obs}",
+                                       "input": {"wide": True, "backend": backend, "k": k, "seed": seed, "power": power}})
+
+
 def replay(ctx, rp):
     case = rp["input"]
+    if case.get("wide"):
+        obs, ok = _wide(case["backend"], case["k"], case["seed"], case["power"])
+        return {"fails": not ok, "observed": obs}
     if case.get("power"):
         return {"fails": True, "note": "re-run ./check C03"}
     try:
